@@ -120,8 +120,11 @@ pub fn program_opts(data: &[u8], rebind_builtins: bool) -> (Program, Vec<&'stati
     let mut labels: Vec<&'static str> = Vec::new();
     let mut counter = 0usize;
     let nmods = 1 + rd.below(6);
+    // (one graph in four calls its first module "core", the name of the interpreter's own library
+    // source: a user module of that name is a module like any other)
+    let core_named = rd.chance(1, 4);
     let paths: Vec<String> = (0..nmods)
-        .map(|i| if i % 3 == 2 { format!("lib/m{}", i) } else { format!("m{}", i) })
+        .map(|i| if i == 0 && core_named { "core".to_string() } else if i % 3 == 2 { format!("lib/m{}", i) } else { format!("m{}", i) })
         .collect();
     // what each module path is: good, bad (does not compile), or missing
     let mut kinds: Vec<u8> = Vec::new();
